@@ -300,6 +300,13 @@ func (nc *Coordinator) manageEvalLoop() {
 
 	for {
 		time.Sleep(100 * time.Millisecond)
+
+		// Note how many session expirations there have been before taking the lock: one that is broadcast at any
+		// point from here on (while Lock is returning, before we reach Wait below) must not be missed
+		nc.App.ZookeeperExpired.L.Lock()
+		expirations := nc.App.ZookeeperExpirations
+		nc.App.ZookeeperExpired.L.Unlock()
+
 		err := lock.Lock()
 		if err != nil {
 			nc.Log.Warn("failed to get zk lock", zap.Error(err))
@@ -312,9 +319,11 @@ func (nc *Coordinator) manageEvalLoop() {
 		go nc.sendEvaluatorRequests()
 		nc.Log.Info("starting evaluations", zap.Error(err))
 
-		// Wait for ZK session expiration, and stop doing evaluations if it happens
+		// Wait for ZK session expiration, and stop doing evaluations if it happens (or has happened already)
 		nc.App.ZookeeperExpired.L.Lock()
-		nc.App.ZookeeperExpired.Wait()
+		if nc.App.ZookeeperExpirations == expirations {
+			nc.App.ZookeeperExpired.Wait()
+		}
 		nc.App.ZookeeperExpired.L.Unlock()
 		nc.doEvaluations = false
 		nc.Log.Info("stopping evaluations", zap.Error(err))
